@@ -56,6 +56,28 @@ def mutate_run(cases_path, outdir, n, timeout_ms=5000, mem_kb=3_000_000):
     return obs_path, total
 
 
+def unicode_cases():
+    """inputs whose emitted Rust cannot be pretty-printed (an item named `_`, a malformed prologue) next to multi-byte text of
+    varying length: the error path quotes the offending line"""
+    from .randgraph import nm, field, typedef
+    jp = "\u65e5\u672c\u8a9e\u306e\u8aac\u660e\uff1a\u3053\u308c\u306f\u9577\u3044\u8aac\u660e\u6587\u3067\u3059\u3002"
+    out = []
+    cid = 0
+    for n in (1, 2, 5, 11, 19, 20, 21, 30, 47, 61):
+        text = " " + (jp * 5)[:n] + " \u00e9\u00e8 \U0001F980"
+        for kind in ("anon-type", "bad-prologue", "fine"):
+            cid += 1
+            tname = "_" if kind == "anon-type" else "T"
+            t = typedef(tname, [field("a", nm("u32")), field("b", nm("u32"))], False)
+            t["doc"] = [text]
+            t["fields"][0]["doc"] = [text, ""]
+            m = {"path": ["m"], "doc": [text], "uses": [], "exts": [], "evals": [], "defs": [t], "impls": [],
+                 "backs": [{"name": "rust", "pro": ("fn \u58ca ( { " + text) if kind == "bad-prologue" else ("// " + text), "epi": "\n"}]}
+            out.append({"id": cid, "group": "bounds-unicode", "tag": ["unicode", kind, n], "input": {"ptr": 8, "mods": [m]},
+                        "order": [], "sched": []})
+    return out
+
+
 def run_bounds(pid, tier):
     res = Result(pid, tier)
     cov = {"states": 0, "transitions": 0, "traces_validated_against_impl": 0, "tlc": [], "checker_cmd": "", "exhaustive": True}
@@ -120,6 +142,19 @@ def run_bounds(pid, tier):
             perr = check_parse_positions(pl)
             for msg in perr:
                 res.violation(msg, {"detail": msg})
+    # ---- 5. multi-byte text next to output that cannot be pretty-printed (the error path quotes the line)
+    ud = fresh_dir("run", f"bounds-{tier}-unicode")
+    ucases = unicode_cases()
+    upath = os.path.join(ud, "cases.ndjson")
+    with open(upath, "w") as f:
+        for c in ucases:
+            f.write(json.dumps(c) + "\n")
+    uobs, _ = harness.replay(upath, os.path.join(ud, "rp"), ["--emit-dir", os.path.join(ud, "emit"), "--style-seed", str(seed())], jobs=4)
+    for c, o in zip(ucases, tlc.read_ndjson(uobs)):
+        n_eval += 1
+        classes["unicode-" + o["outcome"]] = classes.get("unicode-" + o["outcome"], 0) + 1
+        if bad(o):
+            res.violation(f"{o['outcome']} instead of a result on multi-byte text ({c['tag']}): {str(o.get('msg'))[:160]}", payload(c, o))
     cov.update({"evaluations": n_eval, "distinct_nontrivial": n_eval, "outcomes": classes,
                 "rule": "boundary integers (symbolic: -1, 0, 1, 2^31, 2^32, 2^60..2^62, i64/u64 max +-1) in each of 17 numeric positions at "
                         "both widths, identifier shapes, repeated add_module, every vftable block and `_`-field layout of the other "
@@ -149,23 +184,43 @@ def tlaps_proofs():
             "theorems": ["InvHolds", "Bounded: passes <= |first worklist| + X + 1"]}
 
 
+PARSE_ERRORS = {
+    # the mark sits in front of the offending token; each is mid-line so that "the line of the error" is unambiguous
+    "field_colon": "pub type B {\n  x: u32,\n  y \u27e6u32,\n}\n",
+    "backend_entry": "backend rust {\n  prologue \"use a::b;\";\n  \u27e6epilog \"fn t() {}\";\n}\n\npub type C { x: u32 }\n",
+    "enum_base": "pub type A { x: u32 }\nenum E \u27e6{ A }\n",
+    "extern_type": "pub type A { x: u32 }\n#[address(0x10)]\nextern x\u27e6;\npub type Z { y: u32 }\n",
+    "impl_fn": "pub type T { x: u32 }\nimpl T {\n  #[address(0x10)]\n  fn f\u27e6;\n}\n",
+    "item_kw": "pub type T { x: u32 }\n\n\u27e6struct X {}\n",
+    "ptr_type": "pub type T {\n  a: u32,\n  b: *\u27e6u32,\n  c: u32,\n}\n",
+    "vft_ret": "pub type T {\n  vftable {\n    fn f(&self) -> \u27e6;\n  },\n  c: u32,\n}\n",
+    "attr_arg": "pub type Q { x: u32 }\n#[size(\u27e6=)]\npub type T { x: u32 }\n",
+    "array_len": "pub type T {\n  a: [u32; \u27e6x],\n  c: u32,\n}\n",
+}
+
+
 def check_parse_positions(pl):
-    """a syntactically broken file must be reported with path:line:col"""
-    import re, tempfile, shutil
-    d = os.path.join(pl.dir, "parsepos")
-    shutil.rmtree(d, ignore_errors=True)
-    os.makedirs(os.path.join(d, "in", "sub"))
-    open(os.path.join(d, "in", "ok.pyxis"), "w").write("pub type A { x: u32 }\n")
-    open(os.path.join(d, "in", "sub", "bad.pyxis"), "w").write("pub type B {\n  x: u32,\n  y u32,\n}\n")
-    case = {"id": 1, "input": {"ptr": 8, "mods": []}}
-    # driven through a tiny helper of the harness: via-fs replay of a prepared tree
-    cp = os.path.join(d, "case.ndjson")
-    out = os.path.join(d, "obs.ndjson")
-    p = subprocess.run([PVH, "buildtree", "--in-dir", os.path.join(d, "in"), "--out-dir", os.path.join(d, "out")],
-                       stdout=subprocess.PIPE, stderr=subprocess.STDOUT, text=True)
-    msg = p.stdout
-    if "outcome=err" not in msg:
-        return [f"a file with a syntax error is not rejected: {msg[:200]}"]
-    if not re.search(r"sub/bad\.pyxis:3:\d+", msg):
-        return [f"the parse error does not identify file, line and column (expected sub/bad.pyxis:3:<col>): {msg[:300]}"]
-    return []
+    """a syntactically broken file must be reported with path:line:col, the line being the line of the offending token
+    (ten kinds of syntax error, each in a nested file next to a valid one, through pyxis::build)"""
+    import re, shutil
+    out = []
+    for kind, text in PARSE_ERRORS.items():
+        d = os.path.join(pl.dir, "parsepos", kind)
+        shutil.rmtree(d, ignore_errors=True)
+        os.makedirs(os.path.join(d, "in", "sub"))
+        pos = text.index("\u27e6")
+        line = text[:pos].count("\n") + 1
+        open(os.path.join(d, "in", "ok.pyxis"), "w").write("pub type A { x: u32 }\n")
+        open(os.path.join(d, "in", "sub", "bad.pyxis"), "w").write(text.replace("\u27e6", ""))
+        p = subprocess.run([PVH, "buildtree", "--in-dir", os.path.join(d, "in"), "--out-dir", os.path.join(d, "out")],
+                           stdout=subprocess.PIPE, stderr=subprocess.STDOUT, text=True)
+        msg = p.stdout
+        if "outcome=err" not in msg:
+            out.append(f"a file with a syntax error ({kind}) is not rejected: {msg[:200]}")
+            continue
+        m = re.search(r"sub/bad\.pyxis:(\d+):(\d+)", msg)
+        if not m:
+            out.append(f"the parse error ({kind}) does not identify file, line and column (expected sub/bad.pyxis:{line}:<col>): {msg[:300]}")
+        elif int(m.group(1)) != line:
+            out.append(f"the parse error ({kind}) is reported at line {m.group(1)}, the offending token is on line {line}: {msg[:300]}")
+    return out
